@@ -23,7 +23,12 @@ def gen_cases(rng, tier):
     cases = []
     for i in range(n):
         if i % 2 == 0:
-            cases.append({"kind": "h", "h": gens.hist(rng, max_faces=5, frac_p=0.1)})
+            c = {"kind": "h", "h": gens.hist(rng, max_faces=5, frac_p=0.1)}
+            if rng.random() < 0.3:
+                # built from bare outcomes mixed with pairs: the stored order need not be ascending; faces and
+                # weights handed to the chooser must still belong together
+                c["form"] = "mixed"
+            cases.append(c)
         else:
             dice, shape = pools.gen_pool(rng, max_dice=4, max_faces=3)
             cases.append({"kind": "p", "dice": dice, "shape": shape})
@@ -34,8 +39,18 @@ def impl_run(case):
     import random
     import dyce.rng
     from dyce import H
+    stored = None
     if case["kind"] == "h":
-        obj = H(gens.py_hist_dict(case["h"]))
+        d = gens.py_hist_dict(case["h"])
+        if case.get("form") == "mixed":
+            items = [o if c == 1 else (o, c) for o, c in d.items()]
+            if items and all(isinstance(x, tuple) for x in items) and items[-1][1] > 1:
+                o, c = items[-1]
+                items[-1:] = [(o, c - 1), o]
+            obj = H(reversed(items))
+            stored = [[qv(o), c] for o, c in obj.items()]
+        else:
+            obj = H(d)
         conv = lambda v: qv(v)
     else:
         obj = pools.py_pool(case["dice"])
@@ -45,6 +60,8 @@ def impl_run(case):
         return {"ok": conv(obj.roll())}
     paths, exhaustive = rl.explore(action)
     out = {"paths": paths, "exhaustive": exhaustive}
+    if stored is not None:
+        out["stored"] = stored
     # the generator installed at the time of the call is the only source of randomness
     old = dyce.rng.RNG
     try:
@@ -55,6 +72,21 @@ def impl_run(case):
         dyce.rng.RNG = random.Random(12345)
         b = [conv(obj.roll()) for _ in range(5)]
         out["reproducible"] = a == b
+        # ... also for the NumPy-backed generator, with falsy seeds, freshly installed and re-seeded in place
+        try:
+            from dyce.rng import PCG64DXSMRandom
+        except ImportError:
+            PCG64DXSMRandom = None
+        if PCG64DXSMRandom is not None:
+            for seed in (0, 12345, [0], False):
+                dyce.rng.RNG = PCG64DXSMRandom(seed)
+                a = [conv(obj.roll()) for _ in range(4)]
+                dyce.rng.RNG = PCG64DXSMRandom(seed)
+                b = [conv(obj.roll()) for _ in range(4)]
+                dyce.rng.RNG.seed(seed)
+                c = [conv(obj.roll()) for _ in range(4)]
+                if not (a == b == c):
+                    out["reproducible"] = False
     finally:
         dyce.rng.RNG = old
     if case["kind"] == "p":
@@ -74,7 +106,7 @@ def coq_check(case, r):
     for p in r["paths"]:
         if case["kind"] == "h":
             e = cres(p["result"], cq)
-            parts.append(f"chk_h_roll {chist(case['h'])} {rl.cscript(p['script'])} {rl.casks(p['asks'])} {e}")
+            parts.append(f"chk_h_roll {chist(r.get('stored', case['h']))} {rl.cscript(p['script'])} {rl.casks(p['asks'])} {e}")
         else:
             e = cres(p["result"], lambda l: clist(cq(x) for x in l))
             parts.append(f"chk_p_roll {clist(chist(h) for h in case['dice'])} {rl.cscript(p['script'])} {rl.casks(p['asks'])} {e}")
